@@ -79,10 +79,13 @@ func c17SymSpec(p string) c17Spec {
 	if verif.Thorough() {
 		modes = 3 // ... | malformed
 	}
-	sp := c17Spec{route: verif.Choice(p+".route", 4), id: "a", apiKey: verif.Choice(p+".X-API-Key", modes), requestID: 1, count: verif.Choice(p+".X-Count", modes), ten: 1,
+	// the earlier request (A): every route, URL parameter and body variant, valid headers;
+	// the later request (B): additionally every header absent/valid (thorough: malformed)
+	sp := c17Spec{route: verif.Choice(p+".route", 4), id: "a", apiKey: 1, requestID: 1, count: 1, ten: 1,
 		query: verif.Choice(p+".query", 3), body: verif.Choice(p+".body", 3)}
 	if p == "B" {
 		sp.id = []string{"a", "bb"}[verif.Choice(p+".id", 2)]
+		sp.apiKey, sp.requestID, sp.count, sp.ten = verif.Choice(p+".X-API-Key", modes), verif.Choice(p+".X-Request-ID", modes), verif.Choice(p+".X-Count", modes), verif.Choice(p+".X-Tenant", 2)
 	}
 	return sp
 }
